@@ -35,3 +35,18 @@ Theorem C16_pulls_only_below_the_limit :
   npull pre < p_cap p + nyield pre.
 Proof. exact pulls_only_below_the_limit. Qed.
 Print Assumptions C16_pulls_only_below_the_limit.
+
+(** exact accounting over the whole history, between operations: the items pulled so far are the
+    items yielded so far plus the queue (running + parked): the backlog the limit bounds is
+    exactly the queue, nothing is lost or counted twice; finished futures = yielded + parked *)
+Theorem C16_backlog_is_exactly_the_queue :
+  forall (P : params), params_ok P ->
+  forall (ty : ctype) (p : cparams) (inits : list (N * script)) (ups : list upstep) (rest : list op) (a : adapter),
+  ad_ctype ty = true ->
+  st_coll (run_state P init_state (OBuild ty p inits ups :: rest)) = CAd a ->
+  let h := hist_of P (OBuild ty p inits ups :: rest) in
+  q_cap (ad_q a) = p_cap p
+  /\ npull h = nyield h + q_len (ad_q a)
+  /\ nprodc h = nyield h + length (parked_q (ad_q a)).
+Proof. exact adapter_accounting. Qed.
+Print Assumptions C16_backlog_is_exactly_the_queue.
